@@ -65,6 +65,20 @@ def gen_random_table(rng, k):
         for o in it["opts"]:
             if o["k"] == "check" and rng.random() < 0.4:
                 o["cname"] = "ck_%s" % it["name"]
+    if rng.random() < 0.12 and len(t["items"]) >= 2:
+        # two distinct columns whose names differ only in quoting / letter case ("ID" next to id): every declaration names exactly one of them
+        cols = [it for kind, it in t["items"] if kind == "col"]
+        a, b = rng.sample(cols, 2)
+        base = a["name"]
+        alike = rng.choice(['"%s"' % base.upper(), '"%s"' % base, "[%s]" % base, base.upper() if base.upper() != base else base.lower(), "`%s`" % base.capitalize()])
+        if alike != base and alike not in [c["name"] for c in cols]:
+            for o in b["opts"]:
+                if o["k"] == "check":
+                    o["col"] = alike
+                    if o.get("cname"):
+                        o["cname"] = "ck_alike"
+            b["name"] = alike
+            t["lookalike"] = True
     S.add_clauses(rng, t, has_pk, max_clauses=5)
     return t
 
@@ -263,7 +277,10 @@ def run_shard(ctx):
         ctx.obs["exhaustive_cases"] += 1
     for i in range(ctx.budget(2000, 60000)):
         t = gen_random_table(rng, i)
-        t = restyle(t, rng.choice(list(STYLES)))
+        if t.get("lookalike"):
+            ctx.obs["lookalike_column_tables"] += 1
+        else:
+            t = restyle(t, rng.choice(list(STYLES)))
         case = make_case(t, rng.choice([None, "multiline", {"case": "lower"}, {"ws": True, "case": "random"}]), rng, "random")
         check_case(ctx, case)
         ctx.obs["random_cases"] += 1
